@@ -51,6 +51,8 @@ def _inner(kind, n):
         return sel([T(col('b'), 'x'), T(col('a'), 'y')], 't')
     if kind == 'expression':
         return sel([T(ast.Add(col('a'), col('b')), 'x'), T(ast.IsNull(col('a')), 'y')], 't')
+    if kind == 'with-k':
+        return sel([T(col('a'), 'x'), T(col('k'), 'y')], 't')
     if kind == 'ordered-visible':
         return sel([T(col('a'), 'x'), T(col('k'), 'y')], 't', order_by=[ast.OrderBy(col('a'), ast.Ordering.DESC)])
     if kind == 'ordered-hidden-2':
@@ -79,6 +81,11 @@ def _outer(kind, source, ncols):
         return sel([target(func('count', ast.Asterisk()), 'n'), target(func('count', col('x')), 'c')], from_clause=source)
     if kind == 'order':
         return sel([target(col('x'))], from_clause=source, order_by=[ast.OrderBy(col('x'), ast.Ordering.DESC)])
+    if kind in ('distinct-limit-1', 'distinct-limit-2'):
+        # DISTINCT is applied to the outer projection before its LIMIT
+        return sel([target(col('y'))], from_clause=source, distinct=True, limit=int(kind[-1]))
+    if kind == 'limit-2':
+        return sel([target(col('y')), target(col('x'))], from_clause=source, limit=2)
     if kind == 'order-ties':
         # stable sort on a key with ties: rows with equal y keep the order the source delivers them in
         return sel([target(col('x')), target(col('y'))], from_clause=source, order_by=[ast.OrderBy(col('y'), ast.Ordering.ASC)])
@@ -157,6 +164,24 @@ def make_from_order(kind, nrows, quick, thorough):
 for _kind in ('ordered-visible', 'ordered-hidden-2'):
     make_from_order(_kind, 2, 240, 600)
     make_from_order(_kind, 3, None, 1500)
+
+
+OUTER_CUTS = ['distinct-limit-1', 'distinct-limit-2', 'limit-2']
+
+
+@cond('C08.from.outer-distinct-limit', quick=180, thorough=400,
+      bounds=f'base table of 3 rows (a symbolic int or NULL; k in {{NULL,0,1}} enumerated); inner queries SELECT a AS x, k AS y [ORDER BY a '
+             f'DESC]; outer queries {OUTER_CUTS} (SELECT DISTINCT y ... LIMIT n / SELECT y, x ... LIMIT 2): the outer DISTINCT and '
+             'LIMIT apply to the outer rows, the inner query still returns all of its rows',
+      symbolic='a cells', enumerated='k cells, inner and outer query shape (selectors)',
+      params={'a0': Optional[int], 'a1': Optional[int], 'a2': Optional[int], 'k0': int, 'k1': int, 'k2': int,
+              'outer': int, 'ordered': bool}, group='C08.from',
+      note='metamorphic: the oracle is the real code run on the materialised inner result')
+def from_outer_distinct_limit(outer, ordered, **kw):
+    rows = [(kw[f'a{i}'], 0, KEYDOM.build(f'k{i}', kw)) for i in range(3)]
+    conn = connect(t=HTable('t', COLUMNS, rows))
+    label = _compose_check(conn, _inner('ordered-visible' if ordered else 'with-k', 0), pick(OUTER_CUTS, outer))
+    return label or 'ok'
 
 
 TYPED_INNERS = [
